@@ -69,20 +69,17 @@ func (t *Tree) MeanSupport() float64 {
 // Returns the median branch support
 func (t *Tree) MedianSupport() float64 {
 	edges := t.Edges()
-	tips := t.Tips()
-	supports := make([]float64, len(edges)-len(tips))
-	if len(supports) == 0 {
-		return math.NaN()
-	}
-	i := 0
+	supports := make([]float64, 0, len(edges))
 	for _, e := range edges {
 		if !e.Right().Tip() {
 			if e.Support() == NIL_SUPPORT {
 				return math.NaN()
 			}
-			supports[i] = e.Support()
-			i++
+			supports = append(supports, e.Support())
 		}
+	}
+	if len(supports) == 0 {
+		return math.NaN()
 	}
 	sort.Float64s(supports)
 
